@@ -64,6 +64,23 @@ func vNewPeer(localIP string, agentIP string) (*vPeer, error) {
 
 func (p *vPeer) close() { p.conn.Close() }
 
+// vNewPeerAt binds the peer to a given local address:port (a control plane that comes back on the same port).
+func vNewPeerAt(local string, agentIP string) (*vPeer, error) {
+	la, err := net.ResolveUDPAddr("udp", local)
+	if err != nil {
+		return nil, err
+	}
+	c, err := net.ListenUDP("udp", la)
+	if err != nil {
+		return nil, err
+	}
+	ra, _ := net.ResolveUDPAddr("udp", agentIP+":"+PFCPPort)
+	p := &vPeer{conn: c, agent: ra, local: c.LocalAddr().String(), nodeID: la.IP.String(),
+		autoHB: true, barrierWait: 1000 * time.Millisecond, barrierTries: 30,
+		hbSeq: 0x700000, barrierSeqs: map[uint32]bool{}, startTS: time.Unix(1700000000, 0)}
+	return p, nil
+}
+
 func (p *vPeer) send(b []byte) {
 	p.mu.Lock()
 	p.log = append(p.log, vDgram{Seq: vTick(), Out: true, Data: append([]byte{}, b...), At: time.Now()})
@@ -218,22 +235,23 @@ const (
 )
 
 type vPDRSpec struct {
-	ID     uint16
-	Prec   uint32
-	Src    uint8 // ie.SrcInterfaceAccess / ie.SrcInterfaceCore
-	FTEID  bool
-	Choose bool
-	TEID   uint32
-	TunIP  string
-	UE     bool
-	UEIP   string
-	UEFlag uint8 // flags octet of UE IP Address IE (0x02 = V4 present); allocation is requested by a flag without V4
-	SDF    string
-	AppID  string
-	OHR    bool
-	FAR    uint32
-	QERs   []uint32
-	NoFAR  bool
+	ID       uint16
+	Prec     uint32
+	Src      uint8 // ie.SrcInterfaceAccess / ie.SrcInterfaceCore
+	FTEID    bool
+	Choose   bool
+	PDIOrder int // 0: Source Interface first (canonical); otherwise a permutation of the PDI's IEs
+	TEID     uint32
+	TunIP    string
+	UE       bool
+	UEIP     string
+	UEFlag   uint8 // flags octet of UE IP Address IE (0x02 = V4 present); allocation is requested by a flag without V4
+	SDF      string
+	AppID    string
+	OHR      bool
+	FAR      uint32
+	QERs     []uint32
+	NoFAR    bool
 }
 
 type vFARSpec struct {
@@ -247,7 +265,7 @@ type vFARSpec struct {
 	OHCIP   string
 	SndEM   bool
 	SMExtra uint8 // other bits of the PFCPSMReq-Flags octet (DROBU 0x01, QAURR 0x04, spare) set next to / instead of SNDEM
-	SMFlags bool // include PFCPSMReq-Flags IE
+	SMFlags bool  // include PFCPSMReq-Flags IE
 }
 
 type vQERSpec struct {
@@ -286,6 +304,16 @@ func (s vPDRSpec) pdiIEs() []*ie.IE {
 	}
 	if s.AppID != "" {
 		pdi = append(pdi, ie.NewApplicationID(s.AppID))
+	}
+	if s.PDIOrder != 0 && len(pdi) > 1 {
+		// the order of the IEs inside the PDI is not significant: rotate (and reverse for odd values)
+		r := s.PDIOrder % len(pdi)
+		pdi = append(append([]*ie.IE{}, pdi[r:]...), pdi[:r]...)
+		if s.PDIOrder%2 == 1 {
+			for a, b := 0, len(pdi)-1; a < b; a, b = a+1, b-1 {
+				pdi[a], pdi[b] = pdi[b], pdi[a]
+			}
+		}
 	}
 	return pdi
 }
